@@ -17,10 +17,16 @@ type affEnv struct {
 	reg  *Region              // may be nil
 	vals map[string]ssa.Value // atom -> the value it stands for
 	lens map[string]ssa.Value // atom "len(x)" -> x
+	// canon, if set, maps a value to the representative of the values known to be equal to it
+	// (e.g. loads of a variable that is no longer written)
+	canon func(ssa.Value) ssa.Value
 }
 
 func (e *affEnv) resolve(v ssa.Value) ssa.Value {
 	v = stripNum(stripConv(v))
+	if e.canon != nil {
+		v = e.canon(v)
+	}
 	if e.reg != nil {
 		v = stripNum(stripConv(e.reg.Resolve(v)))
 	}
